@@ -1,0 +1,6 @@
+//go:build !verif
+
+package transport_quic
+
+// verifGate is a no-op unless built with the verif tag.
+func verifGate(point string, t *Transport, addr string, lnk *Link, rel bool) {}
